@@ -10,6 +10,7 @@ R12.4 RESULT-COMBINED     the Result of each boundary update of an Interval memb
       combined I_Result it returns
 The sign case analysis of mul/div, relative-error terms and linearisation are not decided.
 """
+import os
 import re
 
 from pplv import facts as F
@@ -32,6 +33,37 @@ def _obj(text):
     if re.search(r"\b(lower|upper|info)\(\)", text):
         return ""
     return None
+
+
+def _scalar_info_justified(f, c, side, val):
+    """A bound of a possibly-interval operand may be passed with SCALAR_INFO only where its two properties are
+    handled by hand: SPECIAL — every path to the call passed the false edge of is_boundary_infinity(side, val,
+    f_info(operand)); OPEN — the call passes an explicit open flag computed with f_info(operand), or stands in a
+    non-strict (`.._OR_EQUAL`) case, where the openness of the operand's bound does not matter."""
+    from pplv import flow
+    m = re.search(r"f_(?:lower|upper)\((\w+)\)", val)
+    if not m:
+        return False
+    op = m.group(1)
+    want = ("is_boundary_infinity(%s,%s,f_info(%s))" % (side, val, op)).replace(" ", "")
+
+    def edge(tc, taken):
+        pol = True
+        x = tc
+        while x is not None and (x["k"] in ("cast", "paren") or (x["k"] == "unop" and x.get("op") == "!")):
+            if x["k"] == "unop":
+                pol = not pol
+            x = f.deref(x["c"][0])
+        return x is not None and f.text(x).replace(" ", "").endswith(want) and taken != pol
+    if flow.must_precede(f, c, lambda x: False, edge_satisfied=edge, track_env=False) is not None:
+        return False
+    txt = f.text(c).replace(" ", "")
+    if "is_open(" in txt and ("f_info(%s)" % op) in txt.split("SCALAR_INFO", 1)[-1]:
+        return True
+    for a in f.ancestors(c):
+        if a["k"] == "case":
+            return "OR_EQUAL" in f.text(a)[:80] or any("OR_EQUAL" in f.text(f.deref(x)) for x in a.get("c", ())[:1] if f.deref(x) is not None)
+    return False
 
 
 def r12_1(ctx, fx):
@@ -67,6 +99,8 @@ def r12_1(ctx, fx):
                     ov, oi = _obj(val), _obj(info)
                     if ov is not None and oi is not None and ov != oi:
                         bad = "value `%s` and info `%s` belong to different intervals" % (val, info)
+                    elif re.search(r"f_(?:lower|upper)\(", val) and "SCALAR_INFO" in info and not _scalar_info_justified(f, c, side, val):
+                        bad = "the bound `%s` of an operand that may be an interval is passed with the info of a scalar (`%s`): its SPECIAL (unbounded) and OPEN properties are ignored and the stale raw value of an infinite bound is used" % (val, info)
                 if bad:
                     ctx.violation(rid, inst, f.where(c), bad + ": the open flag / rounding side of the wrong bound governs the result")
                 else:
@@ -177,6 +211,204 @@ def r12_4(ctx, fx):
     ctx.floor(rid, n, 20, "boundary results in Interval members")
 
 
+MIRROR = [("lower", "upper"), ("LOWER", "UPPER"), ("min_assign", "max_assign"), ("V_GT", "V_LT"), ("V_GE", "V_LE"),
+          ("GREATER", "LESS"), ("MINUS", "PLUS"), ("minus", "plus"), ("ROUND_DOWN", "ROUND_UP"), (r"_inf\b", "_sup"), ]
+
+
+def r12_6(ctx):
+    from pplv.shape import canon, first_diff
+    rid = "R12.6"
+    ctx.rule(rid, "mirror siblings: each member of Interval named after the lower side has a twin named after the upper side (lower_extend / upper_extend, lower_is_open / upper_is_open, ...); the twin is the mirror image of its sibling under lower <-> upper, LOWER <-> UPPER, min <-> max, > <-> <, minus <-> plus infinity, ROUND_DOWN <-> ROUND_UP — same statements, same callees, same cases. A twin that calls its sibling's helper (upper_extend() falling back on lower_extend()) extends the wrong side")
+    fx = ctx.extract([F.driver_unit("all_headers.cc", file_re=r"Interval_(defs|inlines|templates)\.hh")])
+    subst = []
+    for a, b in MIRROR:
+        if a.endswith("\\b"):
+            subst += [(a, "@1@"), (b + "\\b", a[:-2]), ("@1@", b)]
+        else:
+            subst += [(a, "@1@"), (b, a), ("@1@", b)]
+    by = {}
+    for f in fx.functions:
+        if f.flag("pattern") and f.clsn == "Interval" and ("lower" in f.name or "upper" in f.name):
+            by.setdefault((f.name, len(f.params)), f)
+    n = 0
+    for (name, k), f in sorted(by.items()):
+        if "lower" not in name:
+            continue
+        tw = name.replace("lower", "upper").replace("_inf", "_sup")
+        g = by.get((tw, k))
+        if g is None:
+            continue
+        n += 1
+        inst = "Interval::%s / %s (%d parameters)" % (name, tw, k)
+        a, b = canon(f, f.ast, subst), canon(g, g.ast)
+        if a == b:
+            ctx.ok(rid, inst, g.where())
+        else:
+            ctx.violation(rid, inst, g.where(), "%s is not the mirror image of %s: %s" % (tw, name, first_diff(a, b)))
+    ctx.floor(rid, n, 6, "lower/upper twins")
+
+
+def _writes_first(f, c):
+    """boundary-layer calls whose first triple is a destination"""
+    nm = f.call_name(c) or ""
+    return "assign" in nm or nm in ("complement",) or nm.startswith("set_")
+
+
+def _triples(f, c):
+    """[(side, value node, info node, index)] of a boundary-layer call."""
+    args = [f.deref(a) for a in f.call_args(c)]
+    out = []
+    for i, a in enumerate(args):
+        if a is not None and a["k"] == "ref" and a.get("n") in ("LOWER", "UPPER") and i + 2 < len(args) and args[i + 1] is not None and args[i + 2] is not None:
+            if not (args[i + 2]["k"] == "ref" and args[i + 2].get("n") in ("LOWER", "UPPER")):
+                out.append((a["n"], args[i + 1], args[i + 2], i))
+    return out
+
+
+def _plain_moves(f):
+    """[(assignment node, lhs text, rhs text, shared info?)] for plain assignments between two boundary values that are
+    each the destination of a boundary operation with its own info object."""
+    pair = {}
+    for c in f.calls():
+        ts = _triples(f, c)
+        if ts and _writes_first(f, c):
+            side, v, i_, idx = ts[0]
+            if idx == 0:
+                pair.setdefault(f.text(v).replace(" ", ""), set()).add(f.text(i_).replace(" ", ""))
+    out = []
+    for a in f.walk():
+        if a["k"] not in ("assign", "ocall") or (a["k"] == "ocall" and a.get("op") != "="):
+            continue
+        cs = [f.deref(x) for x in a["c"]][-2:]
+        if len(cs) != 2 or cs[0] is None or cs[1] is None:
+            continue
+        l, r = f.text(cs[0]).replace(" ", ""), f.text(cs[1]).replace(" ", "")
+        if l in pair and r in pair and l != r:
+            out.append((a, l, r, bool(pair[l] & pair[r]), pair))
+    return out
+
+
+def r12_7(ctx, fx):
+    import os
+    rid = "R12.7"
+    ctx.rule(rid, "a bound moves with its properties: in the members of Interval a boundary value is produced together with an info object that holds its OPEN / SPECIAL properties (the destination pair of a boundary operation). A plain assignment `w = v` from such a value v into a bound w whose properties live in another info object copies the number and drops v's properties (the product of (-1,2] and [-3,1] then has an open bound at the attained value -6): the move must go through the boundary layer (assign(side, w, w_info, side, v, v_info)) or carry the properties explicitly. Expected number of instances on the library: zero; the rule proves itself on every run on a positive example (drivers/positive_r12_7.cc)")
+    u = F.driver_unit("positive_r12_7.cc", file_re=r"positive_r12_7\.cc")
+    u.root2 = os.path.join(F.VERIF, "drivers")
+    pos = ctx.extract([u])
+    hits = [m for g in pos.functions for m in _plain_moves(g) if not m[3]]
+    ctx.require(rid, len(hits) >= 1, "the positive example drivers/positive_r12_7.cc is no longer reported: the rule is blind")
+    n = 0
+    seen = set()
+    for f in fx.functions:
+        if "Interval_" not in f.file or (f.relfile, f.line) in seen or not f.flag("pattern"):
+            continue
+        seen.add((f.relfile, f.line))
+        ctx.count(rid, "Interval members scanned", 1)
+        for a, l, r, shared, pair in _plain_moves(f):
+            n += 1
+            inst = "%s `%s = %s` (line %s)" % (f.name, l, r, a.get("l"))
+            if shared:
+                ctx.ok(rid, inst, f.where(a))
+            else:
+                ctx.violation(rid, inst, f.where(a), "`%s` was computed with the properties in `%s`, `%s` keeps its properties in `%s`: the assignment copies the value only, so the OPEN / SPECIAL flag of the bound that lost the comparison stays attached to the one that won" % (r, ", ".join(sorted(pair[r])), l, ", ".join(sorted(pair[l]))))
+    ctx.ok(rid, "positive example reported (%d plain moves without properties)" % len(hits), "drivers/positive_r12_7.cc")
+    return n
+
+
+def r12_8(ctx, fx):
+    from pplv import flow
+    rid = "R12.8"
+    ctx.rule(rid, "staged info: a member of Interval that builds the new properties in a cleared temporary (`to_info`) and installs it at the end with assign_or_swap(info(), to_info) replaces ALL properties of the interval at that point. Therefore (a) every boundary operation of such a member that writes a bound of the result (destination lower() / upper() / to_lower / to_upper) writes its properties into `to_info`, not into info() — which the final swap overwrites — and (b) every path that reaches the final swap has written both bounds: a path that installs cleared properties over bounds it never assigned leaves the old numbers with new flags")
+    n = 0
+    seen = set()
+    for f in fx.functions:
+        if "Interval_" not in f.file or (f.relfile, f.line) in seen or not f.flag("pattern") or not f.cfg:
+            continue
+        seen.add((f.relfile, f.line))
+        swaps = [c for c in f.calls() if f.call_name(c) == "assign_or_swap" and len(f.call_args(c)) == 2 and f.text(f.call_args(c)[0]).replace(" ", "") == "info()" and f.text(f.call_args(c)[1]).replace(" ", "") == "to_info"]
+        if not swaps:
+            continue
+        dests = []
+        for c in f.calls():
+            ts = _triples(f, c)
+            if ts and ts[0][3] == 0 and _writes_first(f, c):
+                side, v, i_, _ = ts[0]
+                vt = f.text(v).replace(" ", "")
+                if vt in ("lower()", "upper()", "to_lower", "to_upper"):
+                    dests.append((c, side, vt, f.text(i_).replace(" ", "")))
+        for c, side, vt, it in dests:
+            n += 1
+            inst = "%s %s(%s, %s, %s, ..) (line %s)" % (f.name, f.call_name(c), side, vt, it, c.get("l"))
+            if it == "to_info":
+                ctx.ok(rid, inst, f.where(c))
+            else:
+                ctx.violation(rid, inst, f.where(c), "the properties of the new bound go into `%s`, which assign_or_swap(info(), to_info) at the end of the member replaces with the cleared temporary: the OPEN flag computed here is lost" % it)
+        for sw in swaps:
+            for side, names in (("LOWER", ("lower()", "to_lower")), ("UPPER", ("upper()", "to_upper"))):
+                n += 1
+                inst = "%s installs to_info (line %s): %s bound written on every path" % (f.name, sw.get("l"), side.lower())
+
+                def writes(x, side=side, names=names):
+                    if x["k"] in ("call", "mcall"):
+                        ts = _triples(f, x)
+                        if ts and ts[0][3] == 0 and _writes_first(f, x) and ts[0][0] == side and f.text(ts[0][1]).replace(" ", "") in names:
+                            return True
+                        if f.call_name(x) == "assign_or_swap" and f.text(f.call_args(x)[0]).replace(" ", "") in names:
+                            return False      # installs what a destination triple produced: that triple is the write
+                    if x["k"] in ("assign", "ocall") and (x["k"] == "assign" or x.get("op") == "="):
+                        l = f.deref(x["c"][0])
+                        return l is not None and f.text(l).replace(" ", "") in names
+                    return False
+                p = flow.must_precede(f, sw, writes, track_env=False)
+                if p is None:
+                    ctx.ok(rid, inst, f.where(sw))
+                else:
+                    ctx.violation(rid, inst, f.where(sw), "a path reaches the installation of the new properties without having assigned the %s bound (%s): the old number stays under cleared flags" % (side.lower(), flow.render_path(f, p)))
+    ctx.floor(rid, n, 30, "staged-info obligations")
+
+
+def r12_9(ctx, fx):
+    from pplv import flow
+    rid = "R12.9"
+    ctx.rule(rid, "operands are read before the receiver's bound is overwritten: the interval operations accept the receiver itself as an operand (z.sub_assign(x, z)). In a member with interval operands, once a boundary operation has written the receiver's own lower() — not the temporary to_lower — no later boundary operation on any path reads f_lower(p) of an operand p, and likewise for upper(): with p aliasing the receiver that read sees the new bound instead of the operand's")
+    n = 0
+    seen = set()
+    for f in fx.functions:
+        if "Interval_" not in f.file or (f.relfile, f.line) in seen or not f.flag("pattern") or not f.cfg or f.clsn != "Interval":
+            continue
+        seen.add((f.relfile, f.line))
+        ps = [p_["n"] for p_ in f.params if p_["n"]]
+        if not ps:
+            continue
+        for c in f.calls():
+            ts = _triples(f, c)
+            if not ts or ts[0][3] != 0 or not _writes_first(f, c):
+                continue
+            side, v, i_, _ = ts[0]
+            vt = f.text(v).replace(" ", "")
+            if vt not in ("lower()", "upper()"):
+                continue
+            want = "f_lower(" if vt == "lower()" else "f_upper("
+            pos = f.cfg_pos(c)
+            if pos is None:
+                continue
+            n += 1
+            inst = "%s writes %s (line %s)" % (f.name, vt, c.get("l"))
+
+            def later_read(x, c=c, want=want):
+                if x["i"] == c["i"] or f.within(x, c):
+                    return False
+                if x["k"] in ("call", "mcall") and _triples(f, x):
+                    return any(want + p_ + ")" in f.text(x).replace(" ", "") for p_ in ps)
+                return False
+            pth = flow.Explorer(f, track_env=False).find_path(pos, lambda x: False, target=later_read)
+            if pth is None:
+                ctx.ok(rid, inst, f.where(c))
+            else:
+                ctx.violation(rid, inst, f.where(c), "after the receiver's %s is overwritten a later boundary operation still reads `%s..)` of an operand (path %s): if that operand is the receiver itself, it reads the new bound" % (vt, want, flow.render_path(f, pth)))
+    ctx.floor(rid, n, 20, "writes of the receiver's own bounds in members with operands")
+
+
 def run(ctx):
     ctx.explanation = ("C12 side discipline of the interval layer on the template patterns of Interval_* and Boundary_defs.hh: consistent (side, value, info) triples, "
                        "direction derived from the side of the bound written, results combined; decides the discipline, not the sign case analysis of mul/div or linearisation")
@@ -188,6 +420,10 @@ def run(ctx):
     ctx.rule("R3.3", "see C03: LOWER==ROUND_DOWN, UPPER==ROUND_UP and the other encoding witnesses")
     c03.r3_3(ctx)
     r12_4(ctx, fx)
+    r12_6(ctx)
+    r12_7(ctx, fx)
+    r12_8(ctx, fx)
+    r12_9(ctx, fx)
     from rules import idioms
     ctx.rule("R12.5", "copies agree: the per-format arms of the switches of the floating-point layer (compute_absolute_error caches one result per analysed format and reads the traits of that format) are copies of one another; in each arm the identifiers repeat exactly as in its siblings — the slot tested is the slot returned and the slot filled, and the three traits come from one struct")
     fxf = ctx.extract([F.driver_unit("all_headers.cc", file_re=r"(Float_(templates|inlines)|linearize|Linear_Form_templates|Interval_templates)\.hh")])
